@@ -31,6 +31,9 @@ package main
 //     (`zeroFeature_`, `nilLoc_`: the bridges hold for EVERY value, so every cell is overwritten or
 //     accounted for), `sort.Sort(Locations(x))` (`sortLocs_`), `sort.Sort(sort.IntSlice(x))`
 //     (`sortInts_`), `fmt.Sprintf(format, …)` (`sprintf_ format …`), `Qualifier` (`qualifier_`).
+//   - a call with several results (`head, tail := shiftSelector(sel)`) binds the tuple and projects it.  In
+//     `Selector` a `Filter` and an `error` are values of the abstract types `φ_` / `Option ε_` (`err != nil` is
+//     `err.isSome`, `nil` is `none`), `Key`, `And`, `FalseFilter` and `Qualifier` are parameters.
 //   - aliasing: elements are stored only into slices made in the function (`make`); `append` to a
 //     parameter or to a slice of a parameter, and a store through a parameter, are refused (they can
 //     write into memory of the caller, which a value reading cannot express — that is C11's subject).
